@@ -94,6 +94,57 @@ EXPECT = {  # abstract source -> (branch, requires follow, distance delta)
     "first_edge": ("node", True, 1), "target": ("edge", True, 1), "next_edge": ("edge", False, 0)}
 
 
+def visit_once_rule(ctx):
+    """R14b (shared with C19): every element is processed at most once; SearchControl dispatch."""
+    fa = ctx.facts
+    # R14b
+    SI = GS + "search_impl::SearchImpl::"
+    b = ctx.anchor("R14b", SI + "visit_index")
+    if b:
+        v = [i for i, t in cfg.calls(b) if common.norm(cfg.callee(t) or "").endswith("BitSet::value")]
+        s = [i for i, t in cfg.calls(b) if common.norm(cfg.callee(t) or "").endswith("BitSet::set")]
+        ok = bool(v and s) and cfg.must_pass(b, [0], s, cfg.return_blocks(b))[0] and cfg.find_path(b, [0], s, avoid=v) is None
+        ctx.ob("R14b", "visit_index", ok, "reads the visited bit, then sets it, on every path" if ok else
+               "visit_index no longer reads-then-sets the visited bit", b.where)
+    b = ctx.anchor("R14b", SI + "process_index")
+    if b:
+        vi = [(i, t) for i, t in cfg.calls(b) if common.norm(cfg.callee(t) or "") == SI + "visit_index"]
+        pu = [i for i, t in cfg.calls(b) if common.norm(cfg.callee(t) or "") == SI + "process_unvisited_index"]
+        ok = bool(vi and pu)
+        if ok:
+            sws = cfg.bool_switches(b, cfg.derived_locals(b, [vi[0][1]["d"][0]]))
+            ok = bool(sws) and cfg.find_path(b, [0], pu, removed_edges=[sws[0]["false_edge"]]) is None
+        ctx.ob("R14b", "process_index", ok, "an index is processed only if it was not visited before" if ok else
+               "process_index can process an already visited element", b.where)
+    b = ctx.anchor("R14b", SI + "process_unvisited_index")
+    if b:
+        tbl = {}
+        for m in fa.matches(b.path):
+            if m["scrut_ty"].endswith("SearchControl"):
+                for a in m["arms"]:
+                    v = (a["p"].get("path") or "?").split("::")[-1]
+                    ex = [c for c in a["body"]["calls"] if c.endswith("::expand")]
+                    lits = [x for x in a["body"]["lits"] if x.startswith("Bool(")]
+                    tbl[v] = (len(ex), lits)
+        ok = (tbl.get("Continue", (0, []))[0] == 1 and "Bool(true)" in tbl["Continue"][1] and
+              tbl.get("Finish", (1, []))[0] == 0 and tbl.get("Stop", (0, []))[0] == 1 and "Bool(false)" in tbl["Stop"][1])
+        ctx.ob("R14b", "process_unvisited_index:dispatch", ok,
+               "Continue: expand(follow=true); Finish: no expand, search ends; Stop: expand(follow=false)" if ok else
+               "SearchControl dispatch changed: %s" % tbl, b.where)
+        hp = [i for i, t in cfg.calls(b) if (cfg.callee_decl(t) or "").endswith("SearchHandler::process")]
+        ctx.ob("R14b", "process_unvisited_index:handler", bool(hp), "handler consulted once per unvisited element" if hp else
+               "handler.process no longer called", b.where)
+    b = ctx.anchor("R14b", SI + "search")
+    if b:
+        pi = [(i, t) for i, t in cfg.calls(b) if common.norm(cfg.callee(t) or "") == SI + "process_index"]
+        ok = False
+        if pi:
+            comp = [c for c in cfg.sccs(b) if pi[0][0] in c]
+            ok = bool(comp)
+        ctx.ob("R14b", "search:loop", ok, "loop: next() -> process_index until exhausted or false" if ok else
+               "SearchImpl::search no longer loops over the algorithm's next()", b.where)
+
+
 def run(ctx):
     fa = ctx.facts
     evs = {}
@@ -144,52 +195,7 @@ def run(ctx):
             ctx.ob("R14a", "%s~%s" % (f, r), sf == sr, "mirror images" if sf == sr else
                    "forward and reverse expand differ: %s vs %s" % (sf, sr), evs[f][0].where)
 
-    # R14b
-    SI = GS + "search_impl::SearchImpl::"
-    b = ctx.anchor("R14b", SI + "visit_index")
-    if b:
-        v = [i for i, t in cfg.calls(b) if common.norm(cfg.callee(t) or "").endswith("BitSet::value")]
-        s = [i for i, t in cfg.calls(b) if common.norm(cfg.callee(t) or "").endswith("BitSet::set")]
-        ok = bool(v and s) and cfg.must_pass(b, [0], s, cfg.return_blocks(b))[0] and cfg.find_path(b, [0], s, avoid=v) is None
-        ctx.ob("R14b", "visit_index", ok, "reads the visited bit, then sets it, on every path" if ok else
-               "visit_index no longer reads-then-sets the visited bit", b.where)
-    b = ctx.anchor("R14b", SI + "process_index")
-    if b:
-        vi = [(i, t) for i, t in cfg.calls(b) if common.norm(cfg.callee(t) or "") == SI + "visit_index"]
-        pu = [i for i, t in cfg.calls(b) if common.norm(cfg.callee(t) or "") == SI + "process_unvisited_index"]
-        ok = bool(vi and pu)
-        if ok:
-            sws = cfg.bool_switches(b, cfg.derived_locals(b, [vi[0][1]["d"][0]]))
-            ok = bool(sws) and cfg.find_path(b, [0], pu, removed_edges=[sws[0]["false_edge"]]) is None
-        ctx.ob("R14b", "process_index", ok, "an index is processed only if it was not visited before" if ok else
-               "process_index can process an already visited element", b.where)
-    b = ctx.anchor("R14b", SI + "process_unvisited_index")
-    if b:
-        tbl = {}
-        for m in fa.matches(b.path):
-            if m["scrut_ty"].endswith("SearchControl"):
-                for a in m["arms"]:
-                    v = (a["p"].get("path") or "?").split("::")[-1]
-                    ex = [c for c in a["body"]["calls"] if c.endswith("::expand")]
-                    lits = [x for x in a["body"]["lits"] if x.startswith("Bool(")]
-                    tbl[v] = (len(ex), lits)
-        ok = (tbl.get("Continue", (0, []))[0] == 1 and "Bool(true)" in tbl["Continue"][1] and
-              tbl.get("Finish", (1, []))[0] == 0 and tbl.get("Stop", (0, []))[0] == 1 and "Bool(false)" in tbl["Stop"][1])
-        ctx.ob("R14b", "process_unvisited_index:dispatch", ok,
-               "Continue: expand(follow=true); Finish: no expand, search ends; Stop: expand(follow=false)" if ok else
-               "SearchControl dispatch changed: %s" % tbl, b.where)
-        hp = [i for i, t in cfg.calls(b) if (cfg.callee_decl(t) or "").endswith("SearchHandler::process")]
-        ctx.ob("R14b", "process_unvisited_index:handler", bool(hp), "handler consulted once per unvisited element" if hp else
-               "handler.process no longer called", b.where)
-    b = ctx.anchor("R14b", SI + "search")
-    if b:
-        pi = [(i, t) for i, t in cfg.calls(b) if common.norm(cfg.callee(t) or "") == SI + "process_index"]
-        ok = False
-        if pi:
-            comp = [c for c in cfg.sccs(b) if pi[0][0] in c]
-            ok = bool(comp)
-        ctx.ob("R14b", "search:loop", ok, "loop: next() -> process_index until exhausted or false" if ok else
-               "SearchImpl::search no longer loops over the algorithm's next()", b.where)
+    visit_once_rule(ctx)
     # traversals follow the per-slot links; a reused slot must not carry links of the removed element (R08e)
     from rules import C08
     C08.slot_reset_rule(ctx)
